@@ -621,6 +621,13 @@ class LpmSource:
         self.pool.events.append({'k': 'pull', 'r': {'raise': self.ending}})
         raise self.exc_factory(self.ending)
 
+    def close(self):
+        """an input iterator may offer close() and it may take its time (a prefetching input joins its thread
+        there): the pool keeps working meanwhile.  The unchanged library never calls it."""
+        for _ in range(3):
+            self.pool.sched_point('source_close')
+        self.pool.events.append({'k': 'source_close'})
+
 
 class LpmRun:
     def __init__(self, w, b, items, ending, fn, stop_after, chooser, exc_factory):
